@@ -18,6 +18,8 @@ func init() {
 	rt.Register("C07_vandermonde_elem", VerifHarness_C07_vandermonde_elem)
 	rt.Register("C07_cauchy", VerifHarness_C07_cauchy)
 	rt.Register("C07_cauchy_big", VerifHarness_C07_cauchy_big)
+	rt.Register("C07_cauchy_gap", VerifHarness_C07_cauchy_gap)
+	rt.Register("C07_vandermonde_gap", VerifHarness_C07_vandermonde_gap)
 	rt.Register("C07_vandermonde", VerifHarness_C07_vandermonde)
 	rt.Register("C07_vandermonde_big", VerifHarness_C07_vandermonde_big)
 }
@@ -359,6 +361,10 @@ func VerifHarness_C07_cauchy() {
 func VerifHarness_C07_vandermonde() {
 	coderCase(false, 3, 2, 2*(1+rt.Choice("words", 2)), 1+rt.Choice("g", 2))
 }
+// three parity shards with two data shards: every pattern with a gap between
+// the used parity rows
+func VerifHarness_C07_cauchy_gap()      { coderCase(true, 2, 3, 2, 1) }
+func VerifHarness_C07_vandermonde_gap() { coderCase(false, 2, 3, 2, 1) }
 func VerifHarness_C07_cauchy_big() {
 	coderCase(true, 5, 3, []int{2, 18, 34}[rt.Choice("len", 3)], 1+rt.Choice("g", 3))
 }
